@@ -600,6 +600,7 @@ pub fn run(ctx: &Ctx) -> i32 {
         acc.merge(det);
         let big = big_shapes_pass(tier);
         acc.merge(big);
+        acc.merge(build_history_pass());
         extra.insert("hash_order_probe".into(), json!(probe_hash_order_control()));
     }
     if acc.samples.is_empty() {
@@ -745,6 +746,57 @@ fn determinism_pass(tier: Tier) -> Acc {
     })
 }
 
+/// "the same graph always yields the identical table" also after OTHER graphs were built on the same thread:
+/// every ordered pair (first, second) of a small alphabet of graphs (connected, disconnected, self-loops; equal edge counts
+/// with different component structure) is built in a fresh OS thread and the second fingerprint is compared with the one
+/// obtained when that graph is the first thing the thread ever builds.
+fn build_history_pass() -> Acc {
+    let shapes: Vec<Vec<(u8, u8)>> = vec![
+        vec![(0, 1), (0, 1)],
+        vec![(0, 1), (2, 3)],
+        vec![(0, 0), (1, 1)],
+        vec![(0, 0), (0, 1)],
+        vec![(0, 1), (1, 2), (2, 0)],
+        vec![(0, 1), (0, 1), (2, 3)],
+        vec![(0, 1), (1, 2), (3, 3)],
+        vec![(0, 1), (1, 2), (2, 3)],
+        vec![(0, 1), (0, 1), (0, 1)],
+        vec![(0, 1), (1, 2), (2, 3), (3, 0)],
+        vec![(0, 1), (0, 1), (2, 3), (2, 3)],
+        vec![(0, 0), (1, 1), (2, 2), (3, 3)],
+        vec![(0, 1), (1, 2), (2, 0), (3, 3)],
+    ];
+    let mut graphs: Vec<OGraph> = vec![];
+    for s in &shapes {
+        let ne = s.len();
+        graphs.push(mk(s, &vec![true; ne], &vec![3.0; ne], &[], 3));
+        graphs.push(mk(s, &(0..ne).map(|e| e == 0).collect::<Vec<bool>>(), &(0..ne).map(|e| 0.7 + 0.3 * e as f64).collect::<Vec<f64>>(), &[s[0].0, s[0].1], 3));
+    }
+    let fresh = |g: OGraph| -> String { std::thread::spawn(move || build_fingerprint(&g)).join().unwrap_or_else(|_| "thread panicked".into()) };
+    let reference: Vec<String> = graphs.iter().map(|g| fresh(g.clone())).collect();
+    let n = graphs.len();
+    par_for(n, |j, acc| {
+        for i in 0..n {
+            let (gj, gi) = (graphs[j].clone(), graphs[i].clone());
+            let second = std::thread::spawn(move || {
+                let _ = build_fingerprint(&gj);
+                build_fingerprint(&gi)
+            })
+            .join()
+            .unwrap_or_else(|_| "thread panicked".into());
+            acc.inc("build_history_pairs");
+            if second != reference[i] {
+                acc.violate(
+                    format!("C05/build-history/{}/{}", gkey(&graphs[j]), gkey(&graphs[i])),
+                    "deterministic: the same graph always yields the identical table",
+                    "building this graph after another graph on the same thread gives a different result than building it first".into(),
+                    json!({"engine": "table", "graph": graph_json(&graphs[i]), "extra": {"mode": "build-history", "first": graph_json(&graphs[j])}}),
+                );
+            }
+        }
+    })
+}
+
 fn big_shapes_pass(tier: Tier) -> Acc {
     let max_e = tier.pick(8, 10);
     let mut shapes: Vec<Vec<(u8, u8)>> = vec![];
@@ -797,7 +849,23 @@ pub fn replay(ctx: &Ctx, case: &Value) -> i32 {
         c05: ctx.prop == "C05",
     };
     let mut acc = Acc::new();
-    if case["extra"]["mode"] == "hash-order" {
+    if case["extra"]["mode"] == "build-history" {
+        let first = graph_from_json(&case["extra"]["first"]);
+        let g1 = g.clone();
+        let alone = std::thread::spawn(move || build_fingerprint(&g1)).join().unwrap();
+        let g2 = g.clone();
+        let after = std::thread::spawn(move || {
+            let _ = build_fingerprint(&first);
+            build_fingerprint(&g2)
+        })
+        .join()
+        .unwrap();
+        eprintln!("built first : {}", &alone[..alone.len().min(200)]);
+        eprintln!("built second: {}", &after[..after.len().min(200)]);
+        if alone != after {
+            acc.violate("replay".into(), "deterministic", "differs".into(), json!({}));
+        }
+    } else if case["extra"]["mode"] == "hash-order" {
         use momtrop::verif_hooks::set_hash_order;
         let p: Vec<usize> = case["extra"]["order"].as_array().unwrap().iter().map(|v| v.as_u64().unwrap() as usize).collect();
         let base = build_fingerprint(&g);
